@@ -633,12 +633,12 @@ public:
 					{
 						rapidjson::PrettyWriter<StringBuffer, TEncoding, rapidjson::UTF8<>> writer(buffer);
 						writer.SetIndent(options.formatOptions.paddingChar, options.formatOptions.paddingCharNum);
-						mRootJson.Accept(writer);
+						this->WriteDocument(writer);
 					}
 					else
 					{
 						rapidjson::Writer<StringBuffer, TEncoding, rapidjson::UTF8<>> writer(buffer);
-						mRootJson.Accept(writer);
+						this->WriteDocument(writer);
 					}
 					*arg = buffer.GetString();
 				}
@@ -651,12 +651,12 @@ public:
 					{
 						rapidjson::PrettyWriter<AutoOutputStream, TEncoding, rapidjson::AutoUTF<uint32_t>> writer(eos);
 						writer.SetIndent(options.formatOptions.paddingChar, options.formatOptions.paddingCharNum);
-						mRootJson.Accept(writer);
+						this->WriteDocument(writer);
 					}
 					else
 					{
 						rapidjson::Writer<AutoOutputStream, TEncoding, rapidjson::AutoUTF<uint32_t>> writer(eos);
-						mRootJson.Accept(writer);
+						this->WriteDocument(writer);
 					}
 				}
 			}, mOutput);
@@ -665,6 +665,17 @@ public:
 	}
 
 private:
+	template <class TWriter>
+	void WriteDocument(TWriter& writer) const
+	{
+		// The writer stops at a value that JSON cannot represent (NaN, Infinity, invalid UTF sequence when transcoding)
+		if (!mRootJson.Accept(writer))
+		{
+			throw SerializationException(SerializationErrorCode::OutOfRange,
+				"The document contains a value that cannot be represented in JSON (NaN, Infinity or invalid UTF sequence)");
+		}
+	}
+
 	static rapidjson::UTFType ToRapidUtfType(const Convert::Utf::UtfType utfType)
 	{
 		switch (utfType)
